@@ -32,6 +32,13 @@ def check(ctx):
     logs = [e for e in logs if e['fn'] == 'log']
     if not logs:
         ctx.ob('R1', fi, 'logarithm', False, 'no logarithm is taken: the result is not -kT ln p')
+    for e in uniq_events(it, {'masked_ufunc'}, lambda f: f.qualname in (GFE, f'{VOL}.probability')):
+        if e['fn'] == 'log':
+            fill = e['fill']
+            ctx.ob('R3', fi, e['node'], False,
+                   'the logarithm is evaluated only where the mask holds; never-visited voxels keep the fill value of `out` '
+                   f'({"%s" % (fill.const[1],) if fill is not None and fill.const else "uninitialised"}) instead of the prohibitively large energy: '
+                   'they become the cheapest voxels and enter the free-energy graph')
     for e in logs:
         a = e['arg']
         nrm = a.norm if a is not None else None
